@@ -14,7 +14,8 @@ OBLIGATIONS = ["NiftyVerif.C27." + t for t in (
 RULE = ("case = one value per option group (17 groups: output directory, sanity checks, save strategy, plotting, constants, "
         "point estimates, n_samples/controller, transitions, inspect callback, terminate callback, fresh stochasticity, dry run, "
         "return_final_position, export_operator_outputs, earlier call with an output directory, resume, initial index), taken "
-        "from a greedy pairwise (thorough: 3-wise on the first 8 groups) covering array incl. invalid values; each case is one "
+        "from a greedy pairwise (thorough: 3-wise on the first 8 groups) covering array incl. invalid values, a pairwise array over "
+        "valid values only and single-fault rows (each invalid value with everything else valid); each case is one "
         "real call of optimize_kl on a tiny two-key model; non-trivial = any non-default value; distinct by case")
 TRUSTED_BASE = [
     "Lean 4.33 kernel; axioms propext/Classical.choice/Quot.sound only (audited every run)",
@@ -296,6 +297,18 @@ def run(ctx):
                                                     "pickle", "list", "total")]) for g, vs in GROUPS]
     valid_groups = [(g, vs if g != "resume" else [False]) for g, vs in valid_groups]
     rows += covering(ctx.rng, valid_groups, 2)
+    # single-fault rows: every invalid value once with everything else valid (random valid values for the other groups), so
+    # that no check is only ever exercised behind an earlier failing one
+    valid_of = dict(valid_groups)
+    for g, vs in GROUPS:
+        for v in vs:
+            if v not in valid_of[g]:
+                for rep in range(ctx.n(1, 3)):
+                    row = dict(DEFAULT) if rep == 0 else {h: ctx.rng.choice(valid_of[h]) for h, _ in GROUPS}
+                    row[g] = v
+                    if g == "resume":
+                        row["outdir"] = "none"
+                    rows.append(row)
     cases += [r for r in rows if admissible(r)]
     if ctx.quick:
         # plots are slow (matplotlib): keep them in a few rows only
